@@ -13,7 +13,7 @@ structure Good (s : St) : Prop where
 /-- a candidate value the engine inserts: no NUL rune, passes the byte-length guard -/
 structure OKv (s : St) (v : List Nat) : Prop where
   hz : ∀ c ∈ v, c ≠ 0
-  hg : ¬ (utf8 v).length < (utf8 s.pfx).length
+  hg : ¬ v.length < s.pfx.length
 
 /-- the line that shows candidate `v` in place of the prefix -/
 def shown (s : St) (v : List Nat) : Line :=
@@ -31,7 +31,7 @@ theorem clamp_id (l : Line) (p : Int) (h0 : 0 ≤ p) (h1 : p ≤ len l) : clamp 
 
 theorem insertCandidate_spec (l : Line) (cpos : Int) (pfx value : List Nat)
     (h0 : 0 ≤ cpos) (h1 : cpos ≤ len l) (hp : (pfx.length : Int) ≤ cpos)
-    (hz : ∀ c ∈ value, c ≠ 0) (hg : ¬ (utf8 value).length < (utf8 pfx).length) :
+    (hz : ∀ c ∈ value, c ≠ 0) (hg : ¬ value.length < pfx.length) :
     insertCandidate l cpos pfx value =
       .ok (l.take (cpos - pfx.length).toNat ++ value ++ l.drop cpos.toNat, cpos - pfx.length + value.length) := by
   unfold insertCandidate
